@@ -27,6 +27,20 @@ template<class T> using V2 = glm::vec<2, T, glm::defaultp>;
 template<class T> using V3 = glm::vec<3, T, glm::defaultp>;
 template<class T> using V4 = glm::vec<4, T, glm::defaultp>;
 
+// matrices: every shape from C*R scalars (column-major fill), from C column vectors, from one scalar (diagonal), and the 81 shape conversions
+template<int C, int R, class T, size_t... I> glm::mat<C, R, T, glm::defaultp> mat_from_scalars(T const* x, std::index_sequence<I...>) { return glm::mat<C, R, T, glm::defaultp>(x[I]...); }
+template<int C, int R, class T, size_t... I> glm::mat<C, R, T, glm::defaultp> mat_from_cols(T const* x, std::index_sequence<I...>) { return glm::mat<C, R, T, glm::defaultp>(ldv<R, T>(x + I * R)...); }
+template<int C, int R, int C2, int R2> void reg_mconv() {
+  add_unit_lite(nm("mconv", {C, R, C2, R2}), C2 * R2, C * R, [](auto const* x, auto* o) { using T = TY(o); stm(o, glm::mat<C, R, T, glm::defaultp>(ldm<C2, R2, T>(x))); });
+}
+template<int C, int R> void reg_mat17() {
+  add_unit_lite(nm("mctor", {C, R}), C * R, C * R, [](auto const* x, auto* o) { using T = TY(o); stm(o, mat_from_scalars<C, R, T>(x, std::make_index_sequence<C * R>())); });
+  add_unit_lite(nm("mctorc", {C, R}), C * R, C * R, [](auto const* x, auto* o) { using T = TY(o); stm(o, mat_from_cols<C, R, T>(x, std::make_index_sequence<C>())); });
+  add_unit_lite(nm("mdiag", {C, R}), 1, C * R, [](auto const* x, auto* o) { using T = TY(o); stm(o, glm::mat<C, R, T, glm::defaultp>(x[0])); });
+  reg_mconv<C, R, 2, 2>(); reg_mconv<C, R, 2, 3>(); reg_mconv<C, R, 2, 4>(); reg_mconv<C, R, 3, 2>(); reg_mconv<C, R, 3, 3>(); reg_mconv<C, R, 3, 4>();
+  reg_mconv<C, R, 4, 2>(); reg_mconv<C, R, 4, 3>(); reg_mconv<C, R, 4, 4>();
+}
+
 int main(int argc, char** argv) {
 #if CFG == 0
 # if IN_PART(0)
@@ -120,13 +134,7 @@ int main(int argc, char** argv) {
   add_unit_lite("qctor_wxyz", 4, 4, [](auto const* x, auto* o) { using T = TY(o); stq(o, glm::qua<T, glm::defaultp>::wxyz(x[0], x[1], x[2], x[3])); });
   add_unit_lite("qctor_sv", 4, 4, [](auto const* x, auto* o) { using T = TY(o); stq(o, glm::qua<T, glm::defaultp>(x[0], V3<T>(x[1], x[2], x[3]))); });
   // matrices from scalars (column-major fill) and from columns
-  add_unit_lite("mctor_22", 4, 4, [](auto const* x, auto* o) { using T = TY(o); stm(o, glm::mat<2, 2, T, glm::defaultp>(x[0], x[1], x[2], x[3])); });
-  add_unit_lite("mctor_33", 9, 9, [](auto const* x, auto* o) { using T = TY(o); stm(o, glm::mat<3, 3, T, glm::defaultp>(x[0], x[1], x[2], x[3], x[4], x[5], x[6], x[7], x[8])); });
-  add_unit_lite("mctor_44", 16, 16, [](auto const* x, auto* o) { using T = TY(o); stm(o, glm::mat<4, 4, T, glm::defaultp>(x[0], x[1], x[2], x[3], x[4], x[5], x[6], x[7], x[8], x[9], x[10], x[11], x[12], x[13], x[14], x[15])); });
-  add_unit_lite("mctor_23", 6, 6, [](auto const* x, auto* o) { using T = TY(o); stm(o, glm::mat<2, 3, T, glm::defaultp>(x[0], x[1], x[2], x[3], x[4], x[5])); });
-  add_unit_lite("mctor_43", 12, 12, [](auto const* x, auto* o) { using T = TY(o); stm(o, glm::mat<4, 3, T, glm::defaultp>(x[0], x[1], x[2], x[3], x[4], x[5], x[6], x[7], x[8], x[9], x[10], x[11])); });
-  add_unit_lite("mctorc_33", 9, 9, [](auto const* x, auto* o) { using T = TY(o); stm(o, glm::mat<3, 3, T, glm::defaultp>(ldv<3, T>(x), ldv<3, T>(x + 3), ldv<3, T>(x + 6))); });
-  add_unit_lite("mctorc_42", 8, 8, [](auto const* x, auto* o) { using T = TY(o); stm(o, glm::mat<4, 2, T, glm::defaultp>(ldv<2, T>(x), ldv<2, T>(x + 2), ldv<2, T>(x + 4), ldv<2, T>(x + 6))); });
+  reg_mat17<2, 2>(); reg_mat17<2, 3>(); reg_mat17<2, 4>(); reg_mat17<3, 2>(); reg_mat17<3, 3>(); reg_mat17<3, 4>(); reg_mat17<4, 2>(); reg_mat17<4, 3>(); reg_mat17<4, 4>();
 # endif
 #else
 # define INC_MEM(K) IN_PART(K)
